@@ -2,8 +2,11 @@ package props
 
 import (
 	"fmt"
+	"github.com/consensys/gnark-crypto/ecc/bn254/fr"
+	"github.com/consensys/gnark/frontend"
 	"math/big"
 	"strings"
+	"verifharness/ref"
 
 	"verifharness/circ"
 	"verifharness/engine"
@@ -256,6 +259,15 @@ func init() {
 							cs = append(cs, fw.Case{ID: fmt.Sprintf("%s/VerifierData.%s/%s", name, l.Path, op), Kind: "list", P: map[string]any{"inst": name, "path": "VerifierData." + l.Path, "op": op, "listkind": "VerifierData." + l.Kind}})
 						}
 					}
+					// cooperating alteration (the verifier data's cap is the only initial cap the
+					// transcript does not bind): two neighbouring cap entries replaced by their parent and
+					// the old neighbour appended as an extra sibling of the constants/sigmas paths
+					for k := 0; k < 8; k++ {
+						if ctx.Quick && k%2 == 1 && name != "A_testdata" {
+							continue
+						}
+						cs = append(cs, fw.Case{ID: fmt.Sprintf("%s/longerpath/pair%d", name, k), Kind: "longerpath", P: map[string]any{"inst": name, "pair": k}})
+					}
 					for i, e := range edits {
 						if ctx.Quick && name != "A_testdata" && i%3 != 0 {
 							continue
@@ -292,6 +304,46 @@ func init() {
 						return fw.Outcome{Trivial: true}
 					}
 					what = fmt.Sprintf("%s len %d -> %d", c.Str("listkind"), before, lr.Len())
+				case "longerpath":
+					k := c.Int("pair")
+					lde := uint(in.Common.FriParams.DegreeBits + in.Common.FriParams.Config.RateBits)
+					rcx, err := getRoundCtx(in.Name)
+					if err != nil {
+						return fw.Inconcl(err.Error())
+					}
+					capv := in.VD.ConstantSigmasCap
+					if len(capv) != 16 {
+						return fw.Inconcl("cap size")
+					}
+					var l, rr fr.Element
+					l.SetBigInt(leafBig(capv[2*k]))
+					rr.SetBigInt(leafBig(capv[2*k+1]))
+					parent := ref.BNTwoToOne(l, rr)
+					oldL, oldR := leafBig(capv[2*k]), leafBig(capv[2*k+1])
+					hit := 0
+					for j, raw := range rcx.refCh.QueryIndicesRaw {
+						if j >= len(in.PWI.Proof.OpeningProof.QueryRoundProofs) {
+							break
+						}
+						ci := int((raw % (1 << lde)) >> (lde - 4))
+						if ci != 2*k && ci != 2*k+1 {
+							continue
+						}
+						hit++
+						mp := &in.PWI.Proof.OpeningProof.QueryRoundProofs[j].InitialTreesProof.EvalsProofs[0].MerkleProof
+						nb := oldR
+						if ci == 2*k+1 {
+							nb = oldL
+						}
+						mp.Siblings = append(append([]frontend.Variable{}, mp.Siblings...), frontend.Variable(nb))
+					}
+					if hit == 0 {
+						return fw.Outcome{Trivial: true}
+					}
+					nc := append([]frontend.Variable{}, capv...)
+					nc[2*k], nc[2*k+1] = frBig(parent), frBig(parent)
+					in.VD.ConstantSigmasCap = nc
+					what = fmt.Sprintf("cap entries %d,%d replaced by their parent, %d constants/sigmas paths one sibling longer", 2*k, 2*k+1, hit)
 				case "cfg":
 					d := uint64(int64(c.Int("delta")))
 					apply := func(f string, cfgOnly, prmOnly bool) {
